@@ -238,6 +238,11 @@ def _opaque_map(expr):
                 return sp.Pow(walk(b), x)
             if x.is_Rational:
                 wb = walk(b)
+                # key the root on the EXPANDED radicand: sqrt(P) and sqrt(Q) with P == Q as polynomials are the same atom
+                try:
+                    b = sp.expand(b)
+                except Exception:
+                    pass
                 root_key = sp.Pow(b, sp.Rational(1, x.q))
                 fresh = root_key not in mapping
                 r = dummy(root_key)
